@@ -504,8 +504,8 @@ func (r *Run) cellListsDisjoint(fns []*Func) {
 					switch v := val.(type) {
 					case *ast.CallExpr:
 						if b, isB := calleeObj(info, v).(*types.Builtin); isB && b.Name() == "append" && len(v.Args) >= 1 {
-							if types.ExprString(ast.Unparen(v.Args[0])) == own {
-								ok = true
+							if types.ExprString(ast.Unparen(v.Args[0])) == own || types.ExprString(ast.Unparen(resolveLocal(fn, v.Args[0], 0))) == own {
+								ok = true // (also through a local that names this very cell)
 							} else {
 								why = "appends to " + types.ExprString(v.Args[0])
 							}
@@ -514,7 +514,7 @@ func (r *Run) cellListsDisjoint(fns []*Func) {
 							why = "a list made outside the loop"
 						}
 					case *ast.SliceExpr:
-						ok = types.ExprString(ast.Unparen(v.X)) == own
+						ok = types.ExprString(ast.Unparen(v.X)) == own || types.ExprString(ast.Unparen(resolveLocal(fn, v.X, 0))) == own
 						why = "a re-slice of another list"
 					case *ast.CompositeLit:
 						ok = !definedOutside
@@ -905,6 +905,12 @@ func (r *Run) regionDedupIn(root, fn *Func, judgeResult bool, count *int) map[*a
 				}
 				if call, ok := ast.Unparen(res).(*ast.CallExpr); ok {
 					resultCalls[call] = true
+					// … or through the standard iterator helpers: slices.Collect / AppendSeq / Sorted over maps.Keys(m)
+					if kind, m := seqOverMap(info, call); kind != "" {
+						*count++
+						r.Check("Q3", site+":result-unique", kind == "keys" && isPtrKeyedMap(info.TypeOf(m)), call.Pos(),
+							"the result of the region query is collected from %s, which does not make each plane appear once (accepted: the keys of a map keyed by plane pointers)", types.ExprString(m))
+					}
 					// the keys of a pointer-keyed map, through a generic helper of the repository (mapx.Keys(found))
 					if f, ok := calleeObj(info, call).(*types.Func); ok && len(call.Args) == 1 && isRepoPkg(f.Pkg()) && f.Pkg().Path() != pkgDagaz {
 						if g := r.P.Funcs[f]; g != nil && isKeysFunc(g) {
